@@ -149,6 +149,19 @@ def gen():
     if "pubconstINVALID:WordId=WordId::from_raw(0xffff_ffff);" not in _norm(w):
         raise F.FactError("WordId::INVALID is no longer 0xffff_ffff")
     out.append("Definition JOINED_INVALID : N := %s.\n" % F.coq_int(0xffffffff))
+    # ---- each reference list is re-stamped whenever IT was requested (not only when all three were)
+    for flag, fld in (("SPLIT_A", "a_unit_split"), ("SPLIT_B", "b_unit_split"), ("WORD_STRUCTURE", "word_structure")):
+        if "ifsubset.contains(InfoSubset::%s){Self::update_dict_id(&mutword_info.%s,dict_id)?;}" % (flag, fld) not in gb:
+            raise F.FactError("get_word_info_subset no longer re-stamps %s under its own `subset.contains(InfoSubset::%s)`" % (fld, flag))
+    out.append('Definition restamp_per_list : bool := true.\n')
+    # ---- a split unit is a word id literal only when the WHOLE unit is one (`^U?\\d+$` over the unit, not its first field)
+    ps = _norm(bl)
+    if "fnparse_split(&mutself,data:&str)->DicWriteResult<SplitUnit>{ifWORD_ID_LITERAL.is_match(data){Ok(SplitUnit::Ref(parse_wordid(data)?))}else{letmutiter=data.splitn(8,\",\");" not in ps:
+        raise F.FactError("parse_split no longer tests the whole unit against WORD_ID_LITERAL before reading it as an inline reference")
+    pr = _norm(F.strip_comments(F.src("sudachi/src/dic/build/parse.rs")))
+    if 'pub(crate)staticrefWORD_ID_LITERAL:Regex=Regex::new(r"^U?\\d+$").unwrap();' not in pr:
+        raise F.FactError("WORD_ID_LITERAL is no longer ^U?\\d+$")
+    out.append('Definition unit_literal_rule : string := "whole-unit ^U?[0-9]+$".\n')
     # ---- the public accessors through which a morpheme reports its dictionary
     mo = F.strip_comments(F.src("sudachi/src/analysis/morpheme.rs"))
     di = _norm(F.fn_body(mo, "dictionary_id", "analysis/morpheme.rs"))
